@@ -496,8 +496,8 @@ class C20(Prop):
     TECHNIQUE = "Lean 4 proof over executable model + differential correspondence check through a private XDG_CONFIG_HOME"
     RULE = (
         "load: default/user TOML documents rendered from a random tree grammar (tables 3 deep by headers, dotted keys and "
-        "inline tables, implicit super-tables, quoted keys, all scalar types, arrays, arrays of tables with sub-tables, "
-        "comments, indentation) with the user tree derived from the default by dropping/keeping/changing/retyping/adding "
+        "inline tables, implicit super-tables, header blocks out of order, quoted keys, all scalar types, arrays, arrays "
+        "of tables with sub-tables, comments, indentation) with the user tree derived from the default by dropping/keeping/changing/retyping/adding "
         "keys, with and without an existing file, 3 loads each; merge: every pair of dicts over keys {a,b}, leaves {1,2}, "
         "depth<=2 in both insertion orders, plus random deeper pairs; comment/strip: random and boundary text; "
         "non-trivial = load with overlapping keys or a first run, merge pair with a shared key"
@@ -676,7 +676,7 @@ class C20(Prop):
             f = "S " + hx(case["user"]) + " " + ("N" if u is None else "S " + p_tree(u))
         lines = [f"cfg load {case['n']} {hx(case['default'])} {dt} {f}"]
         if case["user"] is None:
-            lines.append("cfg comment " + hx(case["default"]))
+            lines.append("cfg firstfile " + hx(case["default"]))
         return lines
 
     def model_out(self, case, answers):
@@ -693,11 +693,12 @@ class C20(Prop):
             files.append(t.opt(t.str))
         out = {"loads": loads, "files": files, "only_file": [APP + ".toml"] if files[-1] is not None else []}
         out["d"], out["u"] = _parses(case)
+        # the model's parser for first-run files (parseSkel) on the file the model writes, compared with the real
+        # tomlkit on the file the real code wrote
         out["file_tree"] = None
         if case["user"] is None and files[-1] is not None:
-            # the model's parser (parseSkel) on the file the model wrote: second load's user tree is not printed
-            # separately; it is compared through the load results. Kept None here; see same().
-            pass
+            t2 = answer(answers[1])
+            out["file_tree"] = t2.opt(lambda: r_tree(t2))
         return out
 
     def same(self, case, io, mo):
@@ -709,8 +710,11 @@ class C20(Prop):
         def un(l):
             return l if l[0] == "err" else unordered(l)
 
+        def unt(t):
+            return None if t is None else unordered(t)
+
         if ([un(l) for l in io["loads"]] == [un(l) for l in mo["loads"]] and io["files"] == mo["files"]
-                and io["only_file"] == mo["only_file"]):
+                and io["only_file"] == mo["only_file"] and unt(io["file_tree"]) == unt(mo["file_tree"])):
             return True
         # open finding F18: tomlkit's OutOfOrderTableProxy (a default table defined in separated pieces) loses sibling
         # keys on assignment. The model has dict semantics and does not reproduce that; inside the finding's scope a
@@ -720,8 +724,9 @@ class C20(Prop):
         return False
 
     def scope(self, case, out):
-        if case.get("k") == "load" and case["user"] is not None and _out_of_order(case["default"]):
-            return F18
+        if (case.get("k") == "load" and case["user"] is not None and _out_of_order(case["default"])
+                and isinstance(out, dict) and all(f == out["files"][0] for f in out["files"])):
+            return F18  # only failures of the returned overlay; an altered user file is never attributed to it
         return None
 
     # ---- the property ----
